@@ -27,8 +27,8 @@ MANIFEST = {
 GEN = ["Ppm"]
 RULE = ("cases = codec (bits, M, container form) exhaustively over all bit strings up to 8 (quick) / 12 (thorough) bits for "
         "M in 2..16 / 2..256 plus random long ones in 9 container forms; decoder on arbitrary slot patterns; HDD on all slot "
-        "patterns up to 8 (quick) / 16 (thorough) slots, M<=8, with numpy's own draws (spied) and with every admissible "
-        "combination of draws (stubbed) for patterns up to 8 slots; SDD on exact dyadic samples with ties, 4 input forms, "
+        "patterns up to 8 (quick) / 16 (thorough) slots, M<=8, with numpy's own draws (spied) and with every combination of "
+        "draws the code's own randint/choice calls allow (stub enumerating the requested range/array) for patterns up to 8 slots; SDD on exact dyadic samples with ties, 4 input forms, "
         "and on DAC waveforms; rejected orders/lengths; malformed inputs.  non-trivial = accepted call on a non-empty input, "
         "distinct by (kind, M, input, draws)")
 PARTIAL = [
@@ -151,16 +151,6 @@ def _hdd_patterns(M, maxslots):
             yield "".join(t)
 
 
-def _all_picks(M, slots):
-    """every admissible (randint draws, choice draws) for the pattern"""
-    syms = [slots[i:i + M] for i in range(0, len(slots), M)]
-    zero = [s for s in syms if s.count("1") == 0]
-    multi = [[j for j, c in enumerate(s) if c == "1"] for s in syms if s.count("1") > 1]
-    for rs in itertools.product(range(M), repeat=len(zero)):
-        for cs in itertools.product(*multi):
-            yield list(rs), list(cs)
-
-
 def gen_cases(rng, tier):
     quick = tier == "quick"
     cases = []
@@ -226,16 +216,13 @@ def gen_cases(rng, tier):
         for slots in _hdd_patterns(M, maxslots):
             cases.append({"kind": "hdd", "M": M, "data": _data(rng.choice(forms), slots, rng),
                           "np_seed": rng.randrange(1 << 32)})
-    # every admissible combination of draws (stubbed RNG)
+    # every combination of draws the CODE's own calls allow (stubbed RNG): the stub answers each call with every value of
+    # the range / array that call actually passed, explored depth-first over the sequence of calls
     for M in [2, 4, 8]:
         for slots in _hdd_patterns(M, 8 if M > 2 else (6 if quick else 8)):
-            picks = list(_all_picks(M, slots))
-            if len(picks) > (16 if quick else 4096):
-                picks = rng.sample(picks, 16 if quick else 4096)
-            if len(picks) == 1 and quick:
-                continue
-            for rs, cs in picks:
-                cases.append({"kind": "hdd", "M": M, "data": _data("list", slots, rng), "picks": {"r": rs, "c": cs}})
+            if all(x.count("1") == 1 for x in [slots[i:i + M] for i in range(0, len(slots), M)]) and quick and slots:
+                continue      # no draw at all: covered by the spied runs
+            cases.append({"kind": "hdd", "M": M, "data": _data("list", slots, rng), "enum": True})
     for _ in range(60 if quick else 1500):
         M = rng.choice([1, 2, 4, 8, 16, 32, 64, 128, 256])
         nsym = rng.randrange(0, 40)
@@ -340,39 +327,53 @@ ORDER_ZERO = [
 
 # ------------------------------------------------------------------------------------------------ real code
 
-def _run_hdd(case):
+ENUM_CAP = 600
+
+
+def _randint_domain(a, kw):
+    """the values np.random.randint(low, high=None, size=None) may return for the arguments actually passed"""
+    low = a[0] if a else kw.get("low")
+    high = a[1] if len(a) > 1 else kw.get("high")
+    if high is None:
+        low, high = 0, low
+    return list(range(int(low), int(high)))
+
+
+def _hdd_once(case, path):
+    """one call of HDD.  path = None: numpy's own generator (spied).  Otherwise the RNG is a stub that answers call
+    number k with element path[k] (0 when the path is shorter) of the domain that call asked for."""
     import numpy as np
     from opticomlib.ppm import HDD
-    draws = {"r": [], "c": [], "rargs": [], "cargs": [], "bad": []}
-    picks = case.get("picks")
+    draws = {"r": [], "c": [], "rargs": [], "cargs": [], "order": []}
     orig_r, orig_c = np.random.randint, np.random.choice
     state = np.random.get_state()
 
+    def pick(dom):
+        k = len(draws["order"])
+        idx = path[k] if path is not None and k < len(path) else 0
+        draws["order"].append([idx, len(dom)])
+        return dom[idx]
+
     def spy_randint(*a, **kw):
-        if picks is not None:
-            v = picks["r"][len(draws["r"])]
-        else:
-            v = int(orig_r(*a, **kw))
+        dom = _randint_domain(a, kw)
+        v = pick(dom) if path is not None else int(orig_r(*a, **kw))
+        if path is None:
+            draws["order"].append([0, 1])
         draws["r"].append(int(v))
-        draws["rargs"].append(int(a[0]) if a else None)
-        if not (a and 0 <= v < a[0]):
-            draws["bad"].append(f"randint{a} -> {v}")
+        draws["rargs"].append([int(x) for x in a] + [int(kw[k]) for k in ("low", "high") if k in kw])
         return v
 
     def spy_choice(*a, **kw):
         j = [int(x) for x in a[0]]
-        if picks is not None:
-            v = picks["c"][len(draws["c"])]
-        else:
-            v = int(orig_c(*a, **kw))
+        v = pick(j) if path is not None else int(orig_c(*a, **kw))
+        if path is None:
+            draws["order"].append([0, 1])
         draws["c"].append(int(v))
         draws["cargs"].append(j)
-        if v not in j:
-            draws["bad"].append(f"choice({j}) -> {v}")
         return np.int64(v)
 
     try:
-        if picks is None:
+        if path is None:
             np.random.seed(case.get("np_seed", 0))
         np.random.randint, np.random.choice = spy_randint, spy_choice
         inp = _mk_input(case["data"])
@@ -382,6 +383,24 @@ def _run_hdd(case):
         np.random.set_state(state)
     res["draws"] = draws
     return res
+
+
+def _run_hdd(case):
+    """list of runs: one spied run, or (case["enum"]) every sequence of draws the code's own calls allow"""
+    if not case.get("enum"):
+        return [_hdd_once(case, None)]
+    runs, path = [], []
+    while len(runs) < ENUM_CAP:
+        r = _hdd_once(case, path)
+        runs.append(r)
+        order = r["draws"]["order"]            # [chosen index, domain size] per call made
+        k = len(order) - 1
+        while k >= 0 and order[k][0] + 1 >= order[k][1]:
+            k -= 1
+        if k < 0:
+            break
+        path = [o[0] for o in order[:k]] + [order[k][0] + 1]
+    return runs
 
 
 def _sdd_input(case, xs, ns=None):
@@ -438,8 +457,8 @@ def run_impl(case):
             r = _guard(PPM_DECODER, _mk_input(case["data"]), case["M"])
             return {"status": r["status"], "dec": r}
         if kind == "hdd":
-            r = _run_hdd(case)
-            return {"status": r["status"], "hdd": r}
+            runs = _run_hdd(case)
+            return {"status": runs[0]["status"], "hdd": runs[0], "runs": runs}
         if kind == "sdd":
             from opticomlib.ppm import SDD
             r = _with_sps(case["sps"], lambda: _guard(SDD, _sdd_input(case, case["xs"], case.get("ns")), case["M"]))
@@ -500,11 +519,16 @@ def model_requests(case, res):
     if kind == "dec":
         return [f"ppm.dec {case['M']} {_wire_input(case['data'])}"]
     if kind == "hdd":
-        d = res["hdd"]["draws"]
-        rs = " ".join([str(len(d["r"]))] + [f"{v} 1 {a}" for v, a in zip(d["r"], d["rargs"])])
-        cs = " ".join([str(len(d["c"]))] + [" ".join([str(v), str(len(j))] + [str(x) for x in j])
-                                            for v, j in zip(d["c"], d["cargs"])])
-        return [f"ppm.hdd {case['M']} {rs} {cs} {_wire_input(case['data'])}"]
+        reqs = []
+        for run in res["runs"]:
+            d = run["draws"]
+            # each draw goes with the arguments the code passed; the model accepts it only for `randint(M)` / `choice(j)`
+            rs = " ".join([str(len(d["r"]))] + [" ".join([str(v), str(len(a))] + [str(x) for x in a])
+                                                for v, a in zip(d["r"], d["rargs"])])
+            cs = " ".join([str(len(d["c"]))] + [" ".join([str(v), str(len(j))] + [str(x) for x in j])
+                                                for v, j in zip(d["c"], d["cargs"])])
+            reqs.append(f"ppm.hdd {case['M']} {rs} {cs} {_wire_input(case['data'])}")
+        return reqs
     if kind == "sdd":
         xs = case["xs"] if "ns" not in case else [a + b for a, b in zip(case["xs"], case["ns"])]
         return [f"ppm.sdd {case['M']} {case['sps']} {len(xs)} " + " ".join(map(str, xs))]
@@ -539,6 +563,8 @@ def compare(case, res, reqs, replies):
     impl = {"codec": ["enc", "dec"], "dec": ["dec"], "hdd": ["hdd"], "sdd": ["sdd"], "wave": ["sdd"]}.get(kind)
     if kind == "dec2bin":
         wants = [_want(res)]
+    elif kind == "hdd":
+        wants = [_want(run) for run in res["runs"]]
     else:
         wants = [_want(res[k]) for k in impl[:len(reqs)]]
     for req, rep, want in zip(reqs, replies, wants):
@@ -568,12 +594,55 @@ def _bits_of(data):
     return data.get("bits")
 
 
+def _oracle_hdd(case, r, M):
+    """the statement on one run of HDD; every draw was a value the code's own call asked for (numpy's, or the stub's)"""
+    v = []
+    dr = r.get("draws", {})
+    how = f" [draws: randint{dr.get('rargs')} -> {dr.get('r')}, choice{dr.get('cargs')} -> {dr.get('c')}]" if dr.get("r") or dr.get("c") else ""
+    if case["data"]["form"] in ("scalar", "none", "dict"):
+        return v
+    slots = _bits_of(case["data"])
+    if slots is None:
+        return v
+    if case["data"]["form"] in STR_FORMS and case["data"]["text"] == "":
+        return v
+    if not is_pow2(M):
+        if not (r["status"] == "err" and r["err"] == "ValueError"):
+            v.append((f"C12:hdd-reject-order:{'zero' if M == 0 else 'nonpow2'}",
+                      f"HDD(len {len(slots)}, M={M}): order is not a power of two, ValueError required, got "
+                      f"{r.get('exc', r['status'])}"))
+        return v
+    if not 2 <= M <= 256:
+        return v    # outside the statement's orders: model tie only
+    if len(slots) % M != 0:
+        if not (r["status"] == "err" and r["err"] == "ValueError"):
+            v.append(("C12:hdd-reject-length", f"HDD(len {len(slots)}, M={M}): not whole symbols, ValueError required, got {r}"))
+        return v
+    if r["status"] != "ok":
+        return [("C12:hdd-accept", f"HDD({slots!r},{M}) failed with {r.get('exc')}: {r.get('detail')}{how}")]
+    _valid_type(r, "HDD", v)
+    out = r["bits"]
+    if len(out) != len(slots):
+        return v + [("C12:hdd-length", f"HDD({slots!r},{M}) returned {len(out)} slots")]
+    for i, (s, o) in enumerate(zip(_sym(slots, M), _sym(out, M))):
+        if o.count("1") != 1:
+            v.append(("C12:hdd-valid", f"HDD({slots!r},{M}) symbol {i}: {o!r} has {o.count('1')} ON slots{how}"))
+        elif s.count("1") == 1 and o != s:
+            v.append(("C12:hdd-unchanged", f"HDD({slots!r},{M}) symbol {i}: {s!r} had one ON slot but became {o!r}{how}"))
+        elif s.count("1") > 1 and s[o.index("1")] != "1":
+            v.append(("C12:hdd-keeps-on", f"HDD({slots!r},{M}) symbol {i}: {s!r} -> {o!r}: the kept slot was not ON{how}"))
+        if len(v) > 3:
+            break
+    return v
+
+
 def oracle(case, res):
     v = []
     kind = case["kind"]
     if res.get("setup"):
         return v
-    if res["status"] == "timeout" or any(isinstance(x, dict) and x.get("status") == "timeout" for x in res.values()):
+    if res["status"] == "timeout" or any(isinstance(x, dict) and x.get("status") == "timeout"
+                                         for x in list(res.values()) + list(res.get("runs", []))):
         return [("C12:timeout:" + kind, f"{kind} did not return within the time limit: {str(case)[:200]}")]
     M = case.get("M")
     offspec = case.get("offspec", False)
@@ -616,42 +685,9 @@ def oracle(case, res):
                 v.append(("C12:dec-valid", f"PPM_DECODER({bits!r},{M}) = {d}, required {want!r}"))
         return v
     if kind == "hdd":
-        r = res["hdd"]
-        if case["data"]["form"] in ("scalar", "none", "dict"):
-            return v
-        slots = _bits_of(case["data"])
-        if slots is None:
-            return v
-        if case["data"]["form"] in STR_FORMS and case["data"]["text"] == "":
-            return v
-        if r["draws"]["bad"]:
-            return v    # the spied RNG broke its own contract: outside the statement (never seen)
-        if not is_pow2(M):
-            if not (r["status"] == "err" and r["err"] == "ValueError"):
-                v.append((f"C12:hdd-reject-order:{'zero' if M == 0 else 'nonpow2'}",
-                          f"HDD(len {len(slots)}, M={M}): order is not a power of two, ValueError required, got "
-                          f"{r.get('exc', r['status'])}"))
-            return v
-        if not 2 <= M <= 256:
-            return v    # outside the statement's orders: model tie only
-        if len(slots) % M != 0:
-            if not (r["status"] == "err" and r["err"] == "ValueError"):
-                v.append(("C12:hdd-reject-length", f"HDD(len {len(slots)}, M={M}): not whole symbols, ValueError required, got {r}"))
-            return v
-        if r["status"] != "ok":
-            return [("C12:hdd-accept", f"HDD({slots!r},{M}) failed: {r}")]
-        _valid_type(r, "HDD", v)
-        out = r["bits"]
-        if len(out) != len(slots):
-            return v + [("C12:hdd-length", f"HDD({slots!r},{M}) returned {len(out)} slots")]
-        for i, (s, o) in enumerate(zip(_sym(slots, M), _sym(out, M))):
-            if o.count("1") != 1:
-                v.append(("C12:hdd-valid", f"HDD({slots!r},{M}) symbol {i}: {o!r} has {o.count('1')} ON slots"))
-            elif s.count("1") == 1 and o != s:
-                v.append(("C12:hdd-unchanged", f"HDD({slots!r},{M}) symbol {i}: {s!r} had one ON slot but became {o!r}"))
-            elif s.count("1") > 1 and s[o.index("1")] != "1":
-                v.append(("C12:hdd-keeps-on", f"HDD({slots!r},{M}) symbol {i}: {s!r} -> {o!r}: the kept slot was not ON"))
-            if len(v) > 3:
+        for r in res["runs"]:
+            v += _oracle_hdd(case, r, M)
+            if v:
                 break
         return v
     if kind == "sdd":
@@ -738,7 +774,10 @@ def features(case, res):
         return f
     if kind == "hdd":
         d = res["hdd"].get("draws", {})
-        f.append("hdd:draws=" + ("stub" if "picks" in case else "numpy"))
+        f.append("hdd:draws=" + ("enumerated" if case.get("enum") else "numpy"))
+        if case.get("enum"):
+            n = len(res.get("runs", []))
+            f.append("hdd:enum-runs=" + ("1" if n == 1 else "2-16" if n <= 16 else "17-128" if n <= 128 else ">128"))
         if d.get("r"):
             f.append("hdd:empty-symbol")
         if d.get("c"):
@@ -762,7 +801,7 @@ def nontrivial_key(case, res):
         extra = ()
         if kind == "hdd":
             d = res["hdd"]["draws"]
-            extra = (tuple(d["r"]), tuple(d["c"]))
+            extra = (tuple(d["r"]), tuple(d["c"]), len(res.get("runs", [])))
         return (kind, case["M"], case["data"]["form"], body, extra)
     if kind == "sdd":
         return (kind, case["M"], case["sps"], tuple(case["xs"]), tuple(case.get("ns", ())))
